@@ -44,7 +44,7 @@ CATALOGUE = [
     m('c02-no-canon', 'C02', 'break', Y, [("var_type = typ + array.replace('<', '[').replace('>', ']')", "var_type = typ + array")], 'C02.ANGLE'),
     m('c02-raw-convert', 'C02', 'break', Y, [("        if not self.raw:\n            for t in self.tables():", "        if True:\n            for t in self.tables():")], 'C02.RAW'),
     m('c02-dispatch-case', 'C02', 'break', Y, [("uckey = key.upper()", "uckey = key")], 'C02.DISPATCH'),
-    m('c02-no-decode', 'C02', 'break', Y, [("                if 'b' in filename.mode:\n                    contents = contents.decode('ascii')\n", "")], 'C02.BINARY'),
+    m('c02-no-decode', 'C02', 'break', Y, [("                if isinstance(contents, bytes):\n                    contents = contents.decode('ascii')\n", "")], 'C02.BINARY'),
     m('c02-keep-rename-typere', 'C02', 'keep', Y, [("            typere = re.compile(", "            type_re = re.compile("), ("(typ, array) = typere.search(", "(typ, array) = type_re.search(")]),
     m('c02-keep-utf8', 'C02', 'keep', Y, [("contents.decode('ascii')", "contents.decode('utf-8')")]),
     # ------------------------------------------------------------------ C03
